@@ -68,7 +68,8 @@ def plan(tier, seed):
         for first in (0, 1):
             for c in range(NCHUNK):
                 tasks.append(("pairs/line/bound1", ("b1", p, first, c, NCHUNK, "line")))
-    b2 = SHORT + PAIRS[:3] + PAIRS[-3:] if thorough else SHORT[:1]      # bound 2 on all 15 pairs takes ~50 min
+    # bound 2 costs (events of A) x (events of B) executions per pair: only pairs of short calls
+    b2 = SHORT + [("dec-Si-a", "dec-Si-b"), ("dec-ring-a", "dec-ring-b"), ("dec-P", "dec-S")] if thorough else SHORT[:1]
     scopes.append({"name": "pairs/line/bound2", "pairs": b2, "granularity": "LINE", "preemptions": "<= 2"})
     nc2 = 32 if thorough else 8
     for p in b2:
